@@ -62,10 +62,26 @@ func r05a(c *an.Ctx) {
 			isBack := b.Dominates(pred)
 			cst, isConst := p.Edges[i].(*ssa.Const)
 			isFalse := isConst && cst.Value != nil && cst.Value.String() == "false"
+			if !isConst {
+				// a variable known to be false on this very edge (e.g. the ok of a failed lookup carried round by `continue`)
+				alts := an.EdgeAlts(pred, b)
+				isFalse = len(alts) > 0
+				for _, alt := range alts {
+					has := false
+					for _, a := range alt {
+						if a.Y == nil && a.Op == token.ILLEGAL && a.X == p.Edges[i] && !a.Val {
+							has = true
+						}
+					}
+					if !has {
+						isFalse = false
+					}
+				}
+			}
 			if isBack && isFalse {
 				bad++
 				c.Ob("core/task/constraint.Attributes.Satisfy|verdict-phi|backedge-false", lastPos(pred), false,
-					"negative verdict `false` flows back to the constraint loop header (edge b%d->b%d): a later constraint can overwrite it, so the last constraint decides alone", pred.Index, b.Index)
+					"a negative verdict (constant false, or a variable known false on that edge) flows back to the constraint loop header (edge b%d->b%d): a later constraint can overwrite it, so the last constraint decides alone", pred.Index, b.Index)
 			}
 			if !isBack && isFalse && afterLoopHeader(pred) {
 				canReturnFalseFromLoop = true
@@ -364,6 +380,17 @@ func r05d(c *an.Ctx) {
 			}
 		}
 		c.Ob(key+"|subtract-before-next-min", m.Pos(), !leak, "another Min() is reachable from this one without passing its Subtract: two allocations can yield the same port")
+		// (2b) nor to a return that hands a task back (the port is part of what that task requests)
+		unsub := false
+		for _, r := range an.Returns(fn) {
+			if len(r.Results) == 0 || an.IsNilConst(r.Results[0]) {
+				continue
+			}
+			if an.CanReachAvoiding(m, r, []ssa.Instruction{mySub}) {
+				unsub = true
+			}
+		}
+		c.Ob(key+"|subtract-before-task-returned", m.Pos(), !unsub, "a task can be returned from this allocation without the port having been subtracted from the remaining offer (the Subtract is conditional): the next task built on the same offer is given the same port")
 		// (3) after the subtract, the next Min must re-read the offer: every path Subtract -> Min' passes Min's own Ports call
 		if portsCall != nil {
 			stale := an.CanReachAvoiding(mySub, m, []ssa.Instruction{portsCall})
